@@ -47,7 +47,27 @@ witness of some realistic edit):
   comments.  `idx_mention`: `S <-- e;` followed by a constraint statement in
   which S occurs ONLY inside an index (`A[S] === e2`, `A[S] <== e2`,
   `ca.in1[S] <== e2`, `e2 === cs[S].out1`): the only witness of an edit that
-  stops collecting the signals read by index expressions."""
+  stops collecting the signals read by index expressions.
+* fourth audit: WHOLE-ARRAY and PARTIALLY INDEXED references, on both sides:
+  `a0 <-- [e, e, e, e];`, `a0 <-- fa(4, e);`, `[..] --> m0[1];`,
+  `q0[1] <-- [[e, e], [e, e]];`, `q0[1][0] <== [e, e];`, `ca.in1 <-- [e, e];`,
+  `m0[1] === [e, e, e];`, `a0 === xs;`, `q0 === [[[..]]];`.  An access is the
+  list of its components (`[..]` groups and `.port`); `rest` = the dimensions
+  a reference leaves unindexed.
+
+THE RULE "a constraint statement mentions the assigned signal" (fourth audit;
+decided on the written text, never by asking the implementation): the
+statement contains a reference with the SAME NAME whose access A' and the
+access A of the assignment target are PREFIX-COMPATIBLE - A = A', A a proper
+prefix of A' (the statement uses an element / sub-array of the assigned array:
+`q0[1] <-- ..` and `q0[1][0] === x`), or A' a proper prefix of A (the statement
+uses an array that contains the assigned signal: `q0[1] <-- ..` and `q0 ===
+[[..]]`; `o[0] <-- e` and `o === p`).  Components are compared as texts, as
+before (`q0[0][0]` does not mention `q0[1]`).  On fully indexed references (all
+that was generated before) this is the old rule: equal name, equal access.
+`mentions(key, constraint, exact=True)` is the old rule on everything - what
+signal_assignments.rs (`signal_use.access() == access`) implements; the class
+of assignments on which the two differ is `partial-access-mention`."""
 
 NONQUAD_BIN = ["/", "\\", "%", ">>", "<<", "&", "|", "^", "<", ">", "==", "**"]
 QUAD_BIN = ["+", "-", "*"]
@@ -75,6 +95,13 @@ template SubA() {
     signal output out;
     out <== in1[0] * in1[1];
 }
+function fa(n, a) {
+    var r[n];
+    for (var i = 0; i < n; i++) {
+        r[i] = a + i;
+    }
+    return r;
+}
 """
 
 # comments: non-ASCII (2-, 3- and 4-byte characters), and text that looks like what the property counts
@@ -82,6 +109,62 @@ COMMENTS_LINE = ["// \u00e9t\u00e9 s0 <-- x0;", "// \u2200 x \u2208 \U0001d53d: 
 COMMENTS_BLOCK = ["/* \u00e9 <-- */", "/* \u2200\U0001d53d */", "/* s0 <-- \u00df; */"]
 
 SUBS = {"Sub": (["in1", "in2"], ["out"]), "Sub2": (["in1"], ["out1", "out2"]), "Sub0": (["in1"], [])}   # anonymous calls
+
+
+def split_access(acc):
+    """The components of an access text: `[i#3][s0 + 1].in1[0]` -> ['[i#3]', '[s0 + 1]', '.in1', '[0]']."""
+    out, i, n = [], 0, len(acc)
+    while i < n:
+        if acc[i] == "[":
+            depth, j = 0, i
+            while j < n:
+                if acc[j] == "[":
+                    depth += 1
+                elif acc[j] == "]":
+                    depth -= 1
+                    if depth == 0:
+                        break
+                j += 1
+            out.append(acc[i:j + 1])
+            i = j + 1
+        elif acc[i] == ".":
+            j = i + 1
+            while j < n and (acc[j].isalnum() or acc[j] == "_"):
+                j += 1
+            out.append(acc[i:j])
+            i = j
+        else:       # not an access text this module writes
+            out.append(acc[i:])
+            break
+    return out
+
+
+def prefix_compatible(acc1, acc2):
+    """One access is a prefix of the other (or they are equal), component by component."""
+    a, b = split_access(acc1), split_access(acc2)
+    n = min(len(a), len(b))
+    return a[:n] == b[:n]
+
+
+def mentions(key, con, exact=False):
+    """THE RULE (see the module text): does the constraint record `con` mention the assignment target `key`?
+    exact=True: equal name and equal access only (what the implementation's `==` on access vectors decides)."""
+    name, acc = key[0], key[1]
+    for m in con["mentions"]:
+        if m[0] == name and (m[1] == acc or (not exact and prefix_compatible(m[1], acc))):
+            return True
+    # What the implementation does besides (needed only to recognise EXACTLY its output for the known-finding class):
+    # for `T[i] <== e` the pass records the constraint `T === e` with the bare variable T as left-hand side
+    # (signal_assignments.rs visit_statement: `Expression::Variable { name: var }`) next to the Update node that holds
+    # the access - so under `==` on accesses a constraint assignment to an element of T also "uses" T with no access.
+    if exact and acc == "" and con.get("lhs") and con["lhs"][0] == name:
+        return True
+    return False
+
+
+def partial_only(key, con):
+    """The constraint mentions the target, but by no reference with an equal access."""
+    return mentions(key, con) and not mentions(key, con, exact=True)
 
 
 class Writer:
@@ -109,6 +192,7 @@ class Gen:
         self.features = set()
         self.emit_known = True   # also write the shapes of the listed known-finding classes
         self.inside = {}          # key (name, access text) -> set of keys occurring inside its index expressions
+        self.comp_men = {}        # one access component `[..]` (key text) -> set of keys occurring inside it
 
     # ---------------------------------------------------------------- helpers
     def ch(self, xs):
@@ -133,7 +217,7 @@ class Gen:
         r = self.rng.random()
         if depth == 0 and r < 0.16 and sc.get("idxsigs"):
             # a signal inside the index; a previously `<--`-assigned scalar preferred
-            cands = [k for k, _ in sc["assigned"] if k[1] == "" and not k[0].startswith("<")
+            cands = [k for k, _, rest in sc["assigned"] if k[1] == "" and not rest and not k[0].startswith("<")
                      and any(g["name"] == k[0] for g in sc["readable"])]
             if cands and self.p(0.5):
                 k = self.ch(cands)
@@ -168,6 +252,8 @@ class Gen:
             t += "[%s]" % ti
             k += "[%s]" % ki
             m |= mi
+            if mi:
+                self.comp_men.setdefault("[%s]" % ki, set()).update(mi)
         return t, k, m
 
     def sig_ref(self, sc, sig, depth=0, port=None):
@@ -240,8 +326,10 @@ class Gen:
         """A signal that may be assigned: (text, key)."""
         return self.sig_ref(sc, self.ch(sc["targets"]))
 
-    def rec_assign(self, sc, anchor, key, form, extra=None):
+    def rec_assign(self, sc, anchor, key, form, extra=None, rest=()):
         rec = {"anchor": list(anchor), "key": list(key), "form": form}
+        if rest:
+            rec["rest"] = list(rest)      # the dimensions the target leaves unindexed (whole array / partial access)
         if key[0] in sc.get("tagged", ()):
             rec["tagged"] = True
         if self.inside.get(tuple(key)):
@@ -252,34 +340,51 @@ class Gen:
             rec.update(extra)
         sc["def"]["assigns"].append(rec)
         if not key[0].startswith("<") and not (extra and extra.get("kf")):
-            sc["assigned"].append((key, [l for l in sc["loops"]]))
+            sc["assigned"].append((key, [l for l in sc["loops"]], list(rest)))
         self.features.add(form)
 
-    def rec_constraint(self, sc, rng, mentions, form, only_in_index=None):
+    def rec_constraint(self, sc, rng, mentions, form, only_in_index=None, lhs=None):
         rec = {"range": list(rng), "mentions": sorted(list(m) for m in mentions), "form": form}
         if only_in_index:
             # keys this statement mentions ONLY inside an index expression (idx_mention)
             rec["only_in_index"] = [list(k) for k in only_in_index]
+        if lhs is not None:
+            rec["lhs"] = list(lhs)     # `T <== e` / `e ==> T`: the constraint-assigned reference T
         sc["def"]["constraints"].append(rec)
 
     def wanted(self, sc):
         """Pick a previously `<--`-assigned target whose key is expressible in
         the current scope (all its loop variables are the enclosing ones)."""
-        cands = []
+        cands = [(key, rest) for key, _, rest in self.expressible(sc)]
+        if not cands or self.p(0.25):
+            return None
+        key, rest = self.ch(cands)
+        if rest:
+            # the assigned signal is an array: a scalar context can only mention one of its ELEMENTS
+            # (fourth audit: the access of the mention properly extends the access of the target)
+            t, k, m = self.indices(sc, rest)
+            ext = (key[0], key[1] + k)
+            self.inside.setdefault(ext, set()).update(self.inside.get(key, set()) | m)
+            self.features.add("mention-extends-target")
+            return (self.text_of(key) + t, ext)
+        return (self.text_of(key), key)
+
+    @staticmethod
+    def text_of(key):
+        import re
+        return re.sub(r"#\d+", "", key[0] + key[1])
+
+    def expressible(self, sc):
+        """The `<--`-assigned targets whose key can be written in the current scope: (key, loops, rest)."""
+        out = []
         cur = set(sc["loops"])
         names = {g["name"] for g in sc["readable"]}
-        for key, loops in sc["assigned"]:
+        for key, loops, rest in sc["assigned"]:
             key = tuple(key)
             if all(l in cur for l in loops if ("%s#%d" % l) in key[1]) and key[0] in names \
                     and all(m[0] in names for m in self.inside.get(key, ())):
-                cands.append(key)
-        if not cands or self.p(0.25):
-            return None
-        key = self.ch(cands)
-        text = key[0] + key[1]
-        import re
-        text = re.sub(r"#\d+", "", text)
-        return (text, key)
+                out.append((key, loops, rest))
+        return out
 
     def indent(self, sc):
         self.w.put("    " * sc["depth"])
@@ -296,6 +401,10 @@ class Gen:
             self.features.add("non-ASCII comment")
         if self.p(0.07) and sc["depth"] < 4:
             self.idx_mention(sc)
+            return
+        if self.p(0.06) and sc["depth"] < 4 and self.partial_mention(sc):
+            return
+        if self.p(0.10) and self.arr_stmt(sc):
             return
         if r < 0.22:                                   # T <-- E;
             t, k = self.target(sc)
@@ -317,7 +426,7 @@ class Gen:
             else:
                 a = w.put("%s ==> %s" % (self.atom(e), t))
             w.put(";\n")
-            self.rec_constraint(sc, a, m | self.men(k), "cassign")
+            self.rec_constraint(sc, a, m | self.men(k), "cassign", lhs=k)
         elif r < 0.55:                                 # L === R;
             want = self.wanted(sc)
             l, ml = self.expr(sc, d, want=want)
@@ -360,7 +469,7 @@ class Gen:
                 if op in ("<--", "-->"):
                     self.rec_assign(sc, rg, k, "tuple")
                 else:
-                    self.rec_constraint(sc, rg, m | self.men(k), "tuple-cassign")
+                    self.rec_constraint(sc, rg, m | self.men(k), "tuple-cassign", lhs=k)
         elif r < 0.70:                                 # signal declarations with initialisers
             form = self.rng.randrange(3)
             op = self.ch(["<--", "<--", "<=="])
@@ -497,6 +606,7 @@ class Gen:
         def elem(arr):
             rest = "".join("[%d]" % self.rng.randrange(dd) for dd in arr["dims"][1:])
             k = (arr["name"], "[%s]%s" % (S, rest))
+            self.comp_men.setdefault("[%s]" % S, set()).add(key)
             self.inside.setdefault(k, set()).add(key)
             return "%s[%s]%s" % (arr["name"], S, rest), k
         e2, m2 = self.expr(sc, 1)
@@ -511,15 +621,16 @@ class Gen:
             t, k = elem(self.ch([t for t in arrs if t in sc["targets"]]))
             a = w.put("%s <== %s" % (t, e2))
             w.put(";\n")
-            self.rec_constraint(sc, a, m2 | self.men(k), "cassign", only)
+            self.rec_constraint(sc, a, m2 | self.men(k), "cassign", only, lhs=k)
         elif form == "port-cassign":
             c = self.ch(ports)
             pname = [pn for pn, pd in c["ports"] if pd][0]
             k = (c["name"], ".%s[%s]" % (pname, S))
+            self.comp_men.setdefault("[%s]" % S, set()).add(key)
             self.inside.setdefault(k, set()).add(key)
             a = w.put("%s.%s[%s] <== %s" % (c["name"], pname, S, e2))
             w.put(";\n")
-            self.rec_constraint(sc, a, m2 | self.men(k), "cassign", only)
+            self.rec_constraint(sc, a, m2 | self.men(k), "cassign", only, lhs=k)
         else:
             c = self.ch(couts)
             s0 = w.pos
@@ -528,6 +639,194 @@ class Gen:
             w.put("\n")
         self.features.add("idx-mention")
         self.features.add("idx-mention:" + form)
+
+    # ---------------------------------------------------------------- arrays as wholes (fourth audit)
+    ARRAY_KINDS = ("array", "matrix", "tensor")
+
+    def has_rest(self, g):
+        return g["kind"] in self.ARRAY_KINDS or (g["kind"] in ("comp", "compmat") and any(pd for _, pd in g["ports"]))
+
+    def note_inside(self, key):
+        """Record what a key assembled from components written before mentions inside its indices."""
+        m = set()
+        for c in split_access(key[1]):
+            m |= self.comp_men.get(c, set())
+        if m:
+            self.inside.setdefault(tuple(key), set()).update(m)
+
+    def part_ref(self, sc, sig, keep=None):
+        """A reference that leaves at least one dimension unindexed: (text, key, rest dims).  `a0`, `m0[1]`, `q0[i][0]`,
+        `ca.in1`, `cm[0][1].in1`: for a component the component itself is fully indexed, the port partially."""
+        if sig["kind"] in self.ARRAY_KINDS:
+            dims = sig["dims"]
+            n = self.rng.randrange(len(dims)) if keep is None else keep
+            t, k, m = self.indices(sc, dims[:n])
+            rest = dims[n:]
+        else:
+            pname, pdims = self.ch([pp for pp in sig["ports"] if pp[1]])
+            t, k, m = self.indices(sc, sig.get("dims", []))
+            n = self.rng.randrange(len(pdims)) if keep is None else keep
+            tp, kp, mp = self.indices(sc, pdims[:n])
+            t, k, m = "%s.%s%s" % (t, pname, tp), "%s.%s%s" % (k, pname, kp), m | mp
+            rest = pdims[n:]
+        key = (sig["name"], k)
+        if m:
+            self.inside.setdefault(key, set()).update(m)
+        return sig["name"] + t, key, list(rest)
+
+    def prefix_of(self, sc, key, rest):
+        """A reference whose access is a PROPER PREFIX of the given assigned key (the array, or sub-array, that
+        contains the assigned signal), or - for a target that is itself an array - possibly the key itself:
+        (text, key', rest') or None.  Components of a component ARRAY are never dropped (`cs.in1` is no reference)."""
+        sig = next((g for g in sc["readable"] if g["name"] == key[0]), None)
+        if sig is None or not self.has_rest(sig):
+            return None
+        comps = split_access(key[1])
+        if sig["kind"] in self.ARRAY_KINDS:
+            dims, fixed = sig["dims"], 0
+        else:
+            port = next((i for i, c in enumerate(comps) if c.startswith(".")), None)
+            if port is None:
+                return None
+            pd = [pd for pn, pd in sig["ports"] if "." + pn == comps[port]]
+            if not pd or not pd[0]:
+                return None
+            dims, fixed = [None] * (port + 1) + list(pd[0]), port + 1
+        lo, hi = fixed, len(comps) - (0 if rest else 1)
+        if hi < lo:
+            return None
+        n = self.rng.randrange(lo, hi + 1)
+        k2 = (key[0], "".join(comps[:n]))
+        self.note_inside(k2)
+        return self.text_of(k2), k2, list(dims[n:])
+
+    def arr_expr(self, sc, dims, want=None):
+        """An array-valued expression of the given dimensions: (text, mentions)."""
+        if not dims:
+            return self.expr(sc, 1, want=want)
+        r = self.rng.random()
+        if len(dims) == 1 and r < 0.15:
+            e, m = self.expr(sc, 1, want=want)
+            self.features.add("array-valued call")
+            return "fa(%d, %s)" % (dims[0], e), m
+        if r < 0.35:
+            same = [g for g in sc["readable"] if g["kind"] in self.ARRAY_KINDS
+                    and any(g["dims"][i:] == list(dims) for i in range(len(g["dims"])))]
+            if same:
+                g = self.ch(same)
+                keep = [i for i in range(len(g["dims"])) if g["dims"][i:] == list(dims)]
+                t, k, rest = self.part_ref(sc, g, keep=self.ch(keep))
+                self.features.add("array-valued reference")
+                return t, self.men(k)
+        pick = self.rng.randrange(dims[0])
+        parts = [self.arr_expr(sc, dims[1:], want if i == pick else None) for i in range(dims[0])]
+        ms = set()
+        for _, m in parts:
+            ms |= m
+        return "[%s]" % ", ".join(t for t, _ in parts), ms
+
+    def arr_stmt(self, sc):
+        """One statement between arrays: `T <-- AE;`, `AE --> T;`, `T <== AE;`, `AE ==> T;`, `AL === AR;` where T / AL
+        leave dimensions unindexed.  The current line is already indented.  False when the scope has no array."""
+        w = self.w
+        tgts = [g for g in sc["targets"] if self.has_rest(g)]
+        if not tgts:
+            return False
+        r = self.rng.random()
+        if r < 0.45:
+            t, k, rest = self.part_ref(sc, self.ch(tgts))
+            e, _ = self.arr_expr(sc, rest)
+            if self.p(0.75):
+                a = w.put("%s <-- %s" % (t, e))
+                form = "larrow"
+            else:
+                a = w.put("%s --> %s" % (e, t))
+                form = "rarrow"
+            w.put(";\n")
+            self.rec_assign(sc, a, k, form, {"partial": "whole" if k[1] == "" else "partial"}, rest=rest)
+            self.features.add("arrow to " + ("a whole array" if k[1] == "" else "a partially indexed array"))
+            return True
+        # a constraint statement; its array side prefers a prefix of (or the very) assigned target
+        left = None
+        cands = self.expressible(sc)
+        self.rng.shuffle(cands)
+        for key, _, rest in cands:
+            if self.p(0.8):
+                left = self.prefix_of(sc, key, rest)
+                if left:
+                    break
+        mode = "prefix-of-target" if left else "free"
+        if not left:
+            pool = [g for g in sc["readable"] if self.has_rest(g)] if r >= 0.7 else tgts
+            left = self.part_ref(sc, self.ch(pool))
+        t, k, rest = left
+        want = self.wanted(sc)
+        e, m = self.arr_expr(sc, rest, want=want)
+        if r < 0.7 and any(g["name"] == k[0] for g in tgts):
+            if self.p(0.7):
+                a = w.put("%s <== %s" % (t, e))
+            else:
+                a = w.put("%s ==> %s" % (e, t))
+            w.put(";\n")
+            self.rec_constraint(sc, a, m | self.men(k), "cassign-array", lhs=k)
+        else:
+            s0 = w.pos
+            w.put("%s === %s;" % ((t, e) if self.p(0.6) else (e, t)))
+            self.rec_constraint(sc, (s0, w.pos), m | self.men(k), "ceq-array")
+            w.put("\n")
+        self.features.add("array constraint: " + mode)
+        return True
+
+    def partial_mention(self, sc):
+        """`T <-- E;` followed at once by a constraint statement that mentions T ONLY through an access that is a
+        proper extension or a proper prefix of T's: the only witness of an edit of the access comparison that
+        differs on partial accesses alone.  The current line is already indented."""
+        w = self.w
+        arrs = [g for g in sc["targets"] if g["kind"] in self.ARRAY_KINDS]
+        if not arrs:
+            return False
+        g = self.ch(arrs)
+        form = self.ch(["extends", "extends", "prefix", "prefix", "prefix-of-element"])
+        if form == "prefix-of-element":
+            t, k = self.sig_ref(sc, g)
+            rest = []
+            e, _ = self.expr(sc, 1, nonquad=True)
+        else:
+            lo = 1 if form == "prefix" and len(g["dims"]) > 1 else 0
+            t, k, rest = self.part_ref(sc, g, keep=self.rng.randrange(lo, len(g["dims"])))
+            if form == "prefix" and k[1] == "":
+                form = "extends"
+            e, _ = self.arr_expr(sc, rest)
+        a = w.put("%s <-- %s" % (t, e))
+        w.put(";\n")
+        self.rec_assign(sc, a, k, "larrow", {"partial_mention": form}, rest=rest)
+        self.indent(sc)
+        if form == "extends":
+            ti, ki, mi = self.indices(sc, rest[:self.rng.randrange(1, len(rest) + 1)])
+            k2 = (k[0], k[1] + ki)
+            rest2 = rest[len(split_access(ki)):]
+            t2 = t + ti
+        else:
+            comps = split_access(k[1])
+            n = self.rng.randrange(0, len(comps))
+            k2 = (k[0], "".join(comps[:n]))
+            rest2 = g["dims"][n:]
+            t2 = self.text_of(k2)
+        self.note_inside(k2)
+        e2, m2 = self.arr_expr(sc, rest2)
+        if self.p(0.3):
+            a2 = w.put("%s <== %s" % (t2, e2))
+            w.put(";\n")
+            self.rec_constraint(sc, a2, m2 | self.men(k2), "cassign-array" if rest2 else "cassign", None, lhs=k2)
+        else:
+            s0 = w.pos
+            e2 = e2 if rest2 else self.atom(e2)
+            w.put("%s === %s;" % ((t2, e2) if self.p(0.5) else (e2, t2)))
+            self.rec_constraint(sc, (s0, w.pos), m2 | self.men(k2), "ceq-array" if rest2 else "ceq", None)
+            w.put("\n")
+        self.features.add("partial-mention")
+        self.features.add("partial-mention:" + form)
+        return True
 
     def arrow(self, sc, t, k, extra):
         """One `T <-- E;` or `E --> T;` line for the given target."""
@@ -674,7 +973,7 @@ class Gen:
             if oop == "<--":
                 self.rec_assign(sc, rg, k, "anon-output")
             else:
-                self.rec_constraint(sc, rg, self.men(k), "anon-output-cassign")
+                self.rec_constraint(sc, rg, self.men(k), "anon-output-cassign", lhs=k)
         self.features.add("anon")
 
     def block(self, sc, budget, loop=None, tail=None):
@@ -793,6 +1092,7 @@ class Gen:
         self.w.put(rest)
         for nm in ("Sub", "Sub2", "Sub0", "SubA"):
             self.defs.append({"kind": "template", "name": nm, "assigns": [], "constraints": []})
+        self.defs.append({"kind": "function", "name": "fa", "assigns": [], "constraints": []})
         # the constraints of the prelude are irrelevant (no `<--` there)
         self.functions = []
         nf = self.rng.randrange(0, 3)
@@ -817,6 +1117,7 @@ def generate(rng, size=8):
 def expected(defn, known=(), keep=None):
     """The findings the property demands for one definition: a list of
     (anchor, secondaries-if-CS0005) — none for functions and custom templates.
+    With `partial-access-mention` in `known` the secondaries are those of equal accesses only.
     With `known` (names of known-finding classes) the expectation is what the
     defective code produces for exactly those classes; an assignment record may
     carry `kf` (class name) and `alt_constraint` (what it is mistaken for).
@@ -842,9 +1143,22 @@ def expected(defn, known=(), keep=None):
     out = []
     for a in assigns:
         key = a["key"]
-        secs = sorted({tuple(c["range"]) for c in constraints if key in c["mentions"]})
+        exact = PARTIAL_CLASS in known
+        secs = sorted({tuple(c["range"]) for c in constraints if mentions(key, c, exact=exact)})
         out.append((tuple(a["anchor"]), secs))
     return sorted(out)
+
+
+PARTIAL_CLASS = "partial-access-mention"
+
+
+def partial_assigns(defn):
+    """The `<--` assignments of a template on which THE RULE and equality of accesses demand different secondary
+    locations (class `partial-access-mention`): some constraint statement mentions the target only through a
+    properly longer or properly shorter access."""
+    if defn["kind"] != "template":
+        return []
+    return [a for a in defn["assigns"] if any(partial_only(a["key"], c) for c in defn["constraints"])]
 
 
 def dup_groups(defn):
@@ -858,4 +1172,7 @@ def dup_groups(defn):
 
 def known_classes(defn):
     """The known-finding classes one definition falls in (syntactic, decided by the generator)."""
-    return {a["kf"] for a in defn["assigns"] if a.get("kf")}
+    out = {a["kf"] for a in defn["assigns"] if a.get("kf")}
+    if partial_assigns(defn):
+        out.add(PARTIAL_CLASS)
+    return out
